@@ -16,6 +16,8 @@
  *   API <seq> <label> <return code> [request statuses ...]
  *   HANG <seq> <label>           (watchdog: this rank was still inside API <seq>; label "sync" = it had
  *                                 returned from API <seq> and waited for the other ranks to return too)
+ *   CRASH <signal> <seq> <label> (SIGSEGV/SIGBUS/SIGABRT/SIGFPE inside API <seq>)
+ *   KILLED <seq> <label>         (SIGTERM from mpiexec because another rank ended abnormally)
  *   STOP <seq>                   (a fault fired during API <seq> on some rank: every rank stops here)
  *   DONE
  *
@@ -63,6 +65,15 @@ static void on_alarm(int sig)
     int n = snprintf(b, sizeof b, "HANG %d %s\n", g_seq, g_label);
     if (g_log) { fflush(g_log); if (write(fileno(g_log), b, n) < 0) {} }
     _exit(7);
+}
+
+static void on_crash(int sig)
+{
+    char b[256];
+    int n = snprintf(b, sizeof b, "%s %d %d %s\n", sig == SIGTERM ? "KILLED" : "CRASH", sig, g_seq, g_label);
+    if (sig == SIGTERM) n = snprintf(b, sizeof b, "KILLED %d %s\n", g_seq, g_label);
+    if (g_log) { if (write(fileno(g_log), b, n) < 0) {} }
+    _exit(sig == SIGTERM ? 8 : 9);
 }
 
 static int hook(const char *fn, int count, const void *buf, int real)
@@ -369,6 +380,8 @@ int main(int argc, char **argv)
     g_log = fopen(fn, "w");
     if (!g_log) { perror(fn); MPI_Abort(MPI_COMM_WORLD, 3); }
     signal(SIGALRM, on_alarm);
+    signal(SIGSEGV, on_crash); signal(SIGBUS, on_crash); signal(SIGABRT, on_crash); signal(SIGFPE, on_crash);
+    signal(SIGTERM, on_crash);
     alarm(argc > 7 ? atoi(argv[7]) : 20);
     scenario(argv[1], argv[2]);
     g_seq++; g_label = "finalize";
